@@ -250,3 +250,64 @@ pub fn c15_ld_remove_all() {
     ds_query!(d, &m, PAny, PAny, PAny, PAny);
     std::mem::forget(d);
 }
+
+// CollectibleGraph / CollectibleDataset::from_*_source: a faulty source gives Err(SourceError), a refused term gives
+// Err(SinkError), otherwise the collected store holds exactly the items.
+use sophia_api::dataset::CollectibleDataset;
+use sophia_api::graph::CollectibleGraph;
+
+macro_rules! collect_graph {
+    ($name:ident, $G:ty) => {
+        #[cfg(kani)]
+        #[kani::proof]
+        #[kani::unwind(4)]
+        pub fn $name() {
+            let mut m = Model::new();
+            let src = any_titer(true);
+            let full = any_full();
+            let (_ecount, eout) = reference(&src, full, &mut m);
+            unsafe { FULL_FOR = full; }
+            let r = <$G>::from_triple_source(src);
+            unsafe { FULL_FOR = NCODES; }
+            kani::cover!(eout == 0, "collected");
+            kani::cover!(eout == 1, "source fault");
+            kani::cover!(eout == 2, "sink fault");
+            match r {
+                Ok(g) => {
+                    assert!(eout == 0, "a fault was swallowed while collecting");
+                    gr_query!(g, &m, PAny, PAny, PAny);
+                    std::mem::forget(g);
+                }
+                Err(SourceError(_)) => assert!(eout == 1, "source error reported although the source did not fail first"),
+                Err(SinkError(_)) => assert!(eout == 2, "sink error reported although the store did not fail first"),
+            }
+        }
+    };
+}
+collect_graph!(c15_lg_collect, GenericLightGraph<VTI>);
+collect_graph!(c15_fg_collect, GenericFastGraph<VTI>);
+
+#[cfg(kani)]
+#[kani::proof]
+#[kani::unwind(4)]
+pub fn c15_ld_collect() {
+    let mut m = Model::new();
+    let src = any_titer(false);
+    let full = any_full();
+    let (_ecount, eout) = reference(&src, full, &mut m);
+    unsafe { FULL_FOR = full; }
+    let r = <GenericLightDataset<VTI>>::from_quad_source(QIter(src));
+    unsafe { FULL_FOR = NCODES; }
+    kani::cover!(eout == 0, "collected");
+    kani::cover!(eout == 1, "source fault");
+    kani::cover!(eout == 2, "sink fault");
+    match r {
+        Ok(d) => {
+            assert!(eout == 0, "a fault was swallowed while collecting");
+            ds_query!(d, &m, PAny, PAny, PAny, PAny);
+            std::mem::forget(d);
+        }
+        Err(SourceError(_)) => assert!(eout == 1, "source error reported although the source did not fail first"),
+        Err(SinkError(_)) => assert!(eout == 2, "sink error reported although the store did not fail first"),
+    }
+}
